@@ -601,6 +601,10 @@ def run(ctx, rep):
 
     # ---- R9.3 consumer table
     _consumer_table(ctx, ev, rep, orc, etab if 'etab' in dir() else None)
+    # R9.4 (shares R12.3 of C12): after a payload that could not be cut the state machine restarts, so the next packet is
+    # classified from the initial state
+    from . import c12
+    c12.error_path_rules(ctx, rep)
 
 
 def _expected_kind(orc, node, single):
